@@ -1076,14 +1076,32 @@ def projected_lon(
     xx = numpy.full_like(yy, lon)
     tr = CRS("EPSG:4326").transformer_to_crs(crs)
     xx_, yy_ = tr(xx, yy)
-    pts = [
-        (float(x), float(y))
-        for x, y in zip(xx_, yy_)
-        if math.isfinite(x) and math.isfinite(y)
-    ]
-    if len(pts) < 2:
+
+    # Image of a meridian is not always one continuous curve: samples that can
+    # not be projected leave gaps, and on the far side of a transverse mercator
+    # it jumps across the whole map. Never join samples across those.
+    pts = numpy.stack([xx_, yy_], axis=1).astype("float64")
+    with numpy.errstate(invalid="ignore"):
+        seg = numpy.hypot(*numpy.diff(pts, axis=0).T)
+        # jump: way longer than the segments on both sides of it
+        nb = numpy.full((len(seg) + 2,), numpy.nan)
+        nb[1:-1] = seg
+        jump = seg > 10 * numpy.fmax(nb[:-2], nb[2:])
+    ok = numpy.isfinite(pts).all(axis=1)
+
+    runs: List[List[Tuple[float, float]]] = [[]]
+    for i, (x, y) in enumerate(pts.tolist()):
+        if not ok[i] or (i > 0 and jump[i - 1]):
+            runs.append([])
+        if ok[i]:
+            runs[-1].append((x, y))
+    runs = [r for r in runs if len(r) >= 2]
+
+    if len(runs) == 0:
         return line([], crs)
-    return line(pts, crs)
+    if len(runs) == 1:
+        return line(runs[0], crs)
+    return multiline(runs, crs)
 
 
 def clip_lon180(geom: Geometry, tol=1e-6) -> Geometry:
@@ -1136,10 +1154,15 @@ def chop_along_antimeridian(geom: Geometry, precision: float = 0.1) -> Geometry:
         raise ValueError("Expect geometry with CRS defined")
 
     l180 = projected_lon(geom.crs, 180, step=precision)
-    if geom.intersects(l180):
-        return multigeom(geom.split(l180))
+    if not geom.intersects(l180):
+        return geom
 
-    return geom
+    # one cut per continuous piece of the projected antimeridian
+    cuts = list(l180.geoms) if l180.type == "MultiLineString" else [l180]
+    parts = [geom]
+    for cut in cuts:
+        parts = [p for g in parts for p in (g.split(cut) if g.intersects(cut) else [g])]
+    return multigeom(parts)
 
 
 ###########################################
